@@ -405,9 +405,11 @@ pub fn vh_phy(a: &Args) {
     let chips: Vec<String> = a.get("chips").unwrap_or("sx1262,sx1276,sx1262-lw,sx1276-lw").split(',').map(|s| s.to_string()).collect();
     for chip in &chips {
     let chip = chip.as_str();
-    // the adapter's alphabet is small: one level deeper at the same cost
-    let fdepth = depth;
-    let depth = if chip.ends_with("-lw") { depth + 1 } else { depth };
+    // the adapter's alphabet is small: depth 3 in both tiers
+    // faults: at every bus position of the last call after every prefix of length 1 (both tiers; deeper fault
+    // prefixes multiply the histories by the ~50 bus events of a call: 1.4 M histories at depth 3)
+    let fdepth = depth.min(2);
+    let depth = if chip.ends_with("-lw") { depth.max(3) } else { depth };
     let alpha = alphabet(chip);
     let (done_tx, to_tx, done_rx, to_rx, pre_rx, herr, cad): (u16, u16, u16, u16, u16, u16, u16) =
         if base_chip(chip) == "sx1276" { (0x08, 0x08, 0x40, 0x80, 0x10, 0x10, 0x04) } else { (IRQ_TX_DONE, IRQ_TIMEOUT, IRQ_RX_DONE, IRQ_TIMEOUT, IRQ_PREAMBLE, IRQ_HEADER_ERR, IRQ_CAD_DONE) };
